@@ -104,12 +104,16 @@ type spec struct {
 	Ver   int // index into verOutcomes
 	Mode  mode
 	Batch int // 0 = alone on its network, k = member of random batch k
+	// Metrics: the receiving Subscriber is built with WithSubscriberMetrics(). Not an input of
+	// the model: instrumentation must not influence any verdict (that is the property).
+	Metrics bool
 }
 
 // unit: cases that share one network (all of the same mode)
 type unit struct {
-	Mode mode
-	Idx  []int
+	Mode    mode
+	Metrics bool
+	Idx     []int
 }
 
 type someErr struct{ n int }
@@ -393,7 +397,20 @@ func buildSpecs(seed uint64, thorough bool) ([]spec, []unit) {
 	var units []unit
 	single := func(s spec) {
 		specs = append(specs, s)
-		units = append(units, unit{Mode: s.Mode, Idx: []int{len(specs) - 1}})
+		units = append(units, unit{Mode: s.Mode, Metrics: s.Metrics, Idx: []int{len(specs) - 1}})
+	}
+	// the same case again on a Subscriber with metrics enabled: quick repeats the rows of
+	// five verifier outcomes (nil, soft, hard, plain, panic), thorough the whole table
+	withMetrics := func(s spec) {
+		switch verOutcomes[s.Ver].Name {
+		case "nil", "soft_bare", "hard_bare", "plain", "panic":
+		default:
+			if !thorough {
+				return
+			}
+		}
+		s.Metrics = true
+		single(s)
 	}
 	modes := []mode{setBefore, setLate, neverSet}
 	// wire path: complete table payload x verifier outcome x mode
@@ -404,6 +421,7 @@ func buildSpecs(seed uint64, thorough bool) ([]spec, []unit) {
 					continue // the verifier never runs in this mode; quick keeps two rows
 				}
 				single(spec{P: p, Ver: vi, Mode: m})
+				withMetrics(spec{P: p, Ver: vi, Mode: m})
 			}
 		}
 	}
@@ -414,7 +432,9 @@ func buildSpecs(seed uint64, thorough bool) ([]spec, []unit) {
 				if !thorough && (m == setLate || (m == neverSet && vi > 0)) {
 					continue
 				}
-				single(localSpec(rng, l, vi, m))
+				ls := localSpec(rng, l, vi, m)
+				single(ls)
+				withMetrics(ls)
 			}
 		}
 	}
@@ -429,7 +449,7 @@ func buildSpecs(seed uint64, thorough bool) ([]spec, []unit) {
 			m = setLate // all validations wait together, then proceed concurrently
 		}
 		n := 2 + rng.Intn(7)
-		u := unit{Mode: m}
+		u := unit{Mode: m, Metrics: k%2 == 1}
 		seen := map[string]bool{}
 		for len(u.Idx) < n {
 			var s spec
@@ -443,6 +463,7 @@ func buildSpecs(seed uint64, thorough bool) ([]spec, []unit) {
 			}
 			seen[string(s.P.Bytes)] = true
 			s.Batch = k
+			s.Metrics = u.Metrics
 			specs = append(specs, s)
 			u.Idx = append(u.Idx, len(specs)-1)
 		}
@@ -610,7 +631,11 @@ func runUnit(t *testing.T, u unit, specs []spec) []result {
 			must(t, err)
 		}
 
-		sub, err := p2p.NewSubscriber[*vhdr.Header](psB, msgID, p2p.WithSubscriberNetworkID(networkID))
+		subOpts := []p2p.SubscriberOption{p2p.WithSubscriberNetworkID(networkID)}
+		if u.Metrics {
+			subOpts = append(subOpts, p2p.WithSubscriberMetrics())
+		}
+		sub, err := p2p.NewSubscriber[*vhdr.Header](psB, msgID, subOpts...)
 		must(t, err)
 		must(t, sub.Start(ctx))
 		subB, err := sub.Subscribe()
@@ -949,7 +974,7 @@ func TestC11(t *testing.T) {
 	}
 	specs, plan := buildSpecs(emit.Seed(), emit.Thorough())
 	if only := emit.Only(); only >= 0 && only < len(specs) {
-		plan = []unit{{Mode: specs[only].Mode, Idx: []int{only}}} // replay: that case alone on its network
+		plan = []unit{{Mode: specs[only].Mode, Metrics: specs[only].Metrics, Idx: []int{only}}} // replay: that case alone on its network
 	}
 	dir := os.Getenv("VERIF_OUT")
 	if dir == "" {
@@ -1002,7 +1027,7 @@ func TestC11(t *testing.T) {
 			splits++
 			var singles []unit
 			for _, i := range dead.Idx {
-				singles = append(singles, unit{Mode: dead.Mode, Idx: []int{i}})
+				singles = append(singles, unit{Mode: dead.Mode, Metrics: dead.Metrics, Idx: []int{i}})
 			}
 			plan = append(singles, rest...)
 		}
@@ -1036,7 +1061,7 @@ func emitCases(t *testing.T, specs []spec, results []result, ran []bool, crashes
 	w.Rule = "complete table: payload variant (valid shapes, Bad flag, truncations, trailing garbage, bad magic/flag/length, bit flip, random bytes, decode-panic byte, empty) " +
 		"x verifier outcome (nil, soft bare/wrapped/doubly wrapped/joined, hard bare/wrapped, plain, context error, hard-over-soft, soft-over-hard, panic) " +
 		"x verifier set before / set late / never set (node context ends), on the wire path A->B->C, one fresh gossipsub network per case; the same for the local path " +
-		"(Broadcast, foreign / typed-nil / mismatching ValidatorData); plus seeded random batches of 2-8 messages (one sender each, mostly valid + malformed stream) in flight through one node at once. " +
+		"(Broadcast, foreign / typed-nil / mismatching ValidatorData); table rows repeated with WithSubscriberMetrics() on the receiving Subscriber (quick: 5 verifier outcomes, thorough: all; half of the batches); plus seeded random batches of 2-8 messages (one sender each, mostly valid + malformed stream) in flight through one node at once. " +
 		"A class is (path, ValidatorData kind, decode class, Validate, verifier outcome, mode, alone/batch); non-trivial = accepted or ignored"
 	w.Exhaustive = true
 	reg := vhdr.NewRegistry()
@@ -1150,15 +1175,19 @@ func emitCases(t *testing.T, specs []spec, results []result, ran []bool, crashes
 		if sp.Batch > 0 {
 			alone = "batch"
 		}
+		if sp.Metrics {
+			alone += "+metrics"
+		}
 		class := fmt.Sprintf("%s/%s/%s/valid=%s/%s/%s/%s", path, vdk, cls, valid, verOutcomes[sp.Ver].Name, sp.Mode, alone)
 		w.Add(term, map[string]any{"payload": sp.P.Name, "bytes": hx(sp.P.Bytes), "local": sp.Local, "vdata": vdk, "vdata_header": sp.VDHdr,
-			"verifier": verOutcomes[sp.Ver].Name, "mode": sp.Mode.String(), "batch": sp.Batch, "result": r}, class, verdict == "OAccept" || verdict == "OIgnore")
+			"verifier": verOutcomes[sp.Ver].Name, "mode": sp.Mode.String(), "batch": sp.Batch, "subscriber_metrics": sp.Metrics, "result": r}, class, verdict == "OAccept" || verdict == "OIgnore")
 		w.Count("verdict", verdict)
 		w.Count("payload", sp.P.Name)
 		w.Count("verifier", verOutcomes[sp.Ver].Name)
 		w.Count("mode", sp.Mode.String())
 		w.Count("path", path+"/"+alone)
 		w.Count("decode_class", cls)
+		w.Count("subscriber_metrics", emit.B(sp.Metrics))
 		w.Count("relayed", emit.B(r.Relayed))
 		w.Count("penalised", emit.B(r.Penalised))
 		w.Count("probe", r.Probe)
